@@ -10,7 +10,7 @@ from vlib import coq_N, coq_bool, coq_list, coq_option
 
 HEADER = ('From Teleport Require Import Base.Bytes Base.Outcome Model.EvmProof Model.EvmProofCheck.\n'
           'Local Open Scope N_scope.\n')
-SHARD = 100
+SHARD = 50
 CORPUS = os.path.join(vlib.ROOT, 'harness', 'cmd', 'c08', 'corpus.jsonl')
 
 KINDS = {1: 'model and code disagree on the outcome class (ok / error / panic) of the verification call',
@@ -76,6 +76,32 @@ def case_term(r):
                 coq_option(None if gt.get('slot_word') is None else hb(gt['slot_word']))))
 
 
+def coq_eval(workdir, name, defs, queries, timeout=1800):
+    """like vlib.coq_eval_lists, but without writing a .glob file (the case literals are large)"""
+    import re
+    text = HEADER + '\n' + defs + '\n'
+    for q, term in queries:
+        text += 'Definition %s := Eval vm_compute in (%s).\n' % (q, term)
+        text += 'Goal True. idtac "@@BEGIN %s". Abort.\nPrint %s.\nGoal True. idtac "@@END". Abort.\n' % (q, q)
+    os.makedirs(workdir, exist_ok=True)
+    open(os.path.join(workdir, name), 'w').write(text)
+    rc, out = vlib.sh(['coqc', '-noglob', '-Q', vlib.THEORIES, 'Teleport', '-w',
+                       '-deprecated-syntactic-definition,-notation-overridden', name], cwd=workdir, timeout=timeout)
+    res = {'_rc': rc, '_out': out}
+    for q, _ in queries:
+        m = re.search(r'@@BEGIN %s\n(.*?)@@END' % re.escape(q), out, flags=re.S)
+        if m:
+            body = re.sub(r'^\s*%s\s*=\s*' % re.escape(q), '', m.group(1).strip())
+            body = re.sub(r'\n\s*:\s[^\n]*(\n\s+[^\n]*)*\s*$', '', body)
+            res[q] = ' '.join(body.split())
+    for ext in ('.vo', '.vok', '.vos'):
+        try:
+            os.remove(os.path.join(workdir, name[:-2] + ext))
+        except OSError:
+            pass
+    return res
+
+
 def evaluate(workdir, results, tag='cases'):
     """returns (mismatches, monitor_failures, model_classes) with case indices into `results`, or (None, log, None)"""
     shards = [results[i:i + SHARD] for i in range(0, len(results), SHARD)]
@@ -83,9 +109,8 @@ def evaluate(workdir, results, tag='cases'):
     def one(ix):
         i, sh = ix
         defs = 'Definition cases : list ecase := %s.\n' % coq_list([case_term(r) for r in sh])
-        res = vlib.coq_eval_lists(workdir, '%s_%d.v' % (tag, i), HEADER, defs,
-                                  [('M', 'mismatches cases'), ('F', 'monitor_failures cases'),
-                                   ('C', 'model_classes cases')])
+        res = coq_eval(workdir, '%s_%d.v' % (tag, i), defs,
+                       [('M', 'mismatches cases'), ('F', 'monitor_failures cases'), ('C', 'model_classes cases')])
         m = vlib.parse_nat_tuples(res.get('M'), 3)
         f = vlib.parse_nat_tuples(res.get('F'), 3)
         c = vlib.parse_nat_tuples(res.get('C'), 2)
@@ -94,7 +119,7 @@ def evaluate(workdir, results, tag='cases'):
         off = i * SHARD
         return ([(h + off, s, k) for h, s, k in m], [(h + off, s, k) for h, s, k in f], c)
 
-    outs = vlib.parallel(one, list(enumerate(shards)), workers=14)
+    outs = vlib.parallel(one, list(enumerate(shards)), workers=16)
     mm, ff, cc = [], [], []
     for o in outs:
         if o[0] == 'error':
@@ -183,7 +208,10 @@ def nontrivial_signature(r):
 
 
 def check(run):
+    import time
+    t0 = time.time()
     run.proof_stage()
+    vlib.log('[C08] proof stage %.1fs' % (time.time() - t0))
     ok, out = vlib.build_harness(['c08'])
     if not ok:
         run.violation(dict(kind='harness-build-failed', log=out[-3000:],
@@ -204,7 +232,9 @@ def check(run):
         results += cs
     ncorpus = len(results)
     results += vlib.read_jsonl(outp)
+    vlib.log('[C08] harness done at %.1fs (%d cases)' % (time.time() - t0, len(results)))
     mm, ff, cc = evaluate(run.work, results)
+    vlib.log('[C08] Coq evaluation done at %.1fs' % (time.time() - t0))
     if mm is None:
         run.violation(dict(kind='coq-evaluation-failed', log=ff), no_input=True)
         return run.finish()
